@@ -41,7 +41,9 @@ RULE = (
     "the planted file and the shifted line (exact line / either duplicate / message extent as in C08), and check-only mode must "
     "exit non-zero with and without -q. evaluations = compiler invocations judged + position tables compared. Non-trivial: lint "
     "cases with >= 1 expected warning or with nested/imported definitions whose lines were moved; error cases whose planted "
-    "line was shifted or lies in an imported file or nested scope; distinct by (texts, compiled file)."
+    "line was shifted or lies in an imported file or nested scope; distinct by (texts, compiled file). Part 'count': valid schemas "
+    "owing exactly n naming warnings, n in {1,2,3,127,128,255,256,257,511,512,513,1024} (constants / aliases / fields / mixed; "
+    "and a conforming twin owing none), through the real CLI `-c` and `-c -q`: n warning lines, exit status non-zero iff n > 0 and not -q."
 )
 ASSUMPTIONS = [
     "columns are 1-based (DESIGN.md C20 'Column convention': every line but the first already is; the only in-repo consumer subtracts 1)",
@@ -467,7 +469,90 @@ def selftest() -> None:
             assert b != w and b != b.upper(), b
 
 
+# ---------------------------------------------------------------------------
+# Part 'count': how MANY warnings must not matter for the exit status
+# ---------------------------------------------------------------------------
+
+COUNTS = [1, 2, 3, 127, 128, 255, 256, 257, 511, 512, 513, 1024]
+
+
+@st.composite
+def count_cases(draw: Any) -> Any:
+    n = draw(st.sampled_from(COUNTS))
+    kind = draw(st.sampled_from(["constants", "fields", "aliases", "mixed"]))
+    return {"n": n, "kind": kind, "clean": draw(st.integers(0, 4)) == 0}
+
+
+def count_text(c: Any) -> str:
+    """A valid schema owing exactly n naming warnings (one per badly named definition; the `clean` twin has
+    the same shape with conforming names and owes none)."""
+    n, kind, clean = c["n"], c["kind"], c["clean"]
+    lines = ["proto counted", ""]
+    left = n
+
+    def consts(k: int) -> None:
+        for i in range(k):
+            lines.append(f"const {'LIMIT' if clean else 'limit'}_{i} = {i}")
+
+    def aliases(k: int) -> None:
+        for i in range(k):
+            lines.append(f"type {'Word' if clean else 'word_'}{i} = uint{1 + i % 64}")
+
+    def fields(k: int) -> None:
+        # at most 255 fields per message
+        j = 0
+        while k > 0:
+            take = min(k, 255)
+            lines.append(f"message Holder{j} {{")
+            for i in range(take):
+                lines.append(f"    bool {'flag_' if clean else 'flagNo'}{i} = {i + 1}")
+            lines.append("}")
+            k -= take
+            j += 1
+
+    if kind == "constants":
+        consts(left)
+    elif kind == "aliases":
+        aliases(left)
+    elif kind == "fields":
+        fields(left)
+    else:
+        a = left // 3
+        consts(a)
+        aliases(a)
+        fields(left - 2 * a)
+    return "\n".join(lines) + "\n"
+
+
+def run_count(c: Any, stats: Stats) -> None:
+    text = count_text(c)
+    owed = 0 if c["clean"] else c["n"]
+    d = env.scratch_dir("cnt")
+    bpapi.write_files(d, {"counted.bitproto": text})
+    path = os.path.join(d, "counted.bitproto")
+    for quiet in (False, True):
+        r = bpapi.cli(["-c", path] + (["-q"] if quiet else []))
+        stats.evaluations += 1
+        warns, _ = parse_warnings(r.stderr)
+        if "Traceback" in r.stderr:
+            raise Violation(f"CLI -c on a schema owing {owed} warnings: traceback {r.stderr[-300:]}", signature="count-traceback")
+        if not quiet and len(warns) != owed:
+            raise Violation(f"CLI -c printed {len(warns)} warnings, the schema owes {owed} ({c['kind']}); first: {warns[:2]}", signature="count-warnings")
+        want_fail = owed > 0 and not quiet
+        if (r.returncode != 0) != want_fail:
+            raise Violation(
+                f"CLI -c{' -q' if quiet else ''} exit status {r.returncode} on a schema owing {owed} warnings ({c['kind']}): check-only mode must exit non-zero exactly when there is at least one warning",
+                signature="count-exit",
+            )
+    stats.count(f"count:{'clean' if c['clean'] else c['n']}")
+    stats.count("count:kind:" + c["kind"])
+    if owed >= 128:
+        stats.mark_nontrivial("count", c["n"], c["kind"])
+    stats.sample({"warnings_owed": owed, "kind": c["kind"], "schema_head": text[:200]})
+
+
 PARTS = [
     HypPart("lint", lambda tier: lint_cases(), run_lint, {"quick": 1500, "thorough": 30000}, describe=describe_lint),
+    HypPart("count", lambda tier: count_cases(), run_count, {"quick": 96, "thorough": 600}, describe=lambda c: {"case": c, "schema": count_text(c)}),
     HypPart("errors", lambda tier: error_cases(), run_error, {"quick": 1100, "thorough": 22000}, describe=describe_error),
 ]
